@@ -7,7 +7,8 @@
     flag produces), [nm] the name list; [print_tv nm v] is the line T(a) F(b) u(c) of interpretation v.
     --an and --counter are not modelled. *)
 From Coq Require Import NArith List Bool.
-From ADF Require Import Spec.Spec Bdd.Store Adf.NativeBase Adf.NativeExamples Adf.Search Front.Parser Front.Cli Front.CliProofs.
+From Coq Require String.
+From ADF Require Import Spec.Spec Bdd.Store Adf.NativeBase Adf.NativeExamples Adf.Search Front.Parser Front.Cli Front.CliProofs Gen.GenCli Gen.TieCli.
 Import ListNotations.
 Local Open Scope N_scope.
 
@@ -103,3 +104,24 @@ Theorem C15_biodivine_ignores : forall c sm fl h text flag b,
   cli_run c MBio sm (set_flag flag b fl) h text = cli_run c MBio sm fl h text.
 Proof. exact cli_bio_ignores. Qed.
 Print Assumptions C15_biodivine_ignores.
+
+Import String.
+(** the source wires what the model wires: on the tables REGENERATED from bin/src/main.rs (Gen/GenCli.v) the
+    guarded semantics blocks of each mode are, in order, exactly the sections of [mode_flags] above; each
+    calls the library method the model runs for that section (and hands --heu to the two nogood searches
+    only); parsing, sorting and building precede all of them *)
+Theorem C15_source_sections : forall m fl,
+  mode_flags m fl = map (fun r => (row_guard fl r, row_section r)) (arm m).
+Proof. exact cli_sections_match_source. Qed.
+Print Assumptions C15_source_sections.
+Theorem C15_source_methods : forall m,
+  forallb (fun r => let e := expected_method (assoc (hd ""%string (row_fields r)) g_cli_flags) in
+                    String.eqb (row_method r) (fst e) && String.eqb (row_heu r) (snd e)) (arm m) = true.
+Proof. exact cli_methods_match_source. Qed.
+Print Assumptions C15_source_methods.
+Theorem C15_source_setup :
+  g_cli_setup_hybrid = ["parse"; "sort_lex"; "sort_alphan"; "build"; "build_rew"; "counter"; "hybrid_step"]%string /\
+  g_cli_setup_biodivine = ["parse"; "sort_lex"; "sort_alphan"; "build"; "build_rew"]%string /\
+  g_cli_setup_naive = ["import"; "import"; "parse"; "sort_lex"; "sort_alphan"; "build"; "export"; "counter"]%string.
+Proof. exact cli_setup_matches_source. Qed.
+Print Assumptions C15_source_setup.
